@@ -72,11 +72,52 @@ func GenC12(seed uint64) *Plan {
 		ev := &model.Event{Name: g.pick(eventNames), Type: "event"}
 		types := []string{"address", "uint256", "uint64", "bytes32", "string", "address", "uint8"}
 		nIdx := 0
-		for i := 0; i < g.between(2, 4); i++ {
+		withRef := g.chance(25)
+		arrayAt := -1
+		nin := g.between(2, 4)
+		if g.chance(25) {
+			arrayAt = g.R.IntN(nin)
+		}
+		for i := 0; i < nin; i++ {
 			in := model.Input{Name: fmt.Sprintf("a%d", i), Type: g.pick(types), Column: fmt.Sprintf("c_a%d", i)}
+			if i == arrayAt {
+				// a selected array with a filter on its elements: one row per
+				// element, each accepted or rejected on its own
+				el := g.pick([]string{"uint64", "uint256", "address", "uint8"})
+				in.Type = el + g.pick([]string{"[]", "[]", "[3]"})
+				if strings.HasPrefix(el, "uint") {
+					in.Filter = g.filterFor("uint", bitsOf(el, "uint"), nil)
+				} else {
+					in.Filter = g.filterFor("bytes", 0, p.Content.Addrs)
+				}
+				nflt++
+				addCol(in.Column, ABIColType(in.Type))
+				ev.Inputs = append(ev.Inputs, in)
+				continue
+			}
 			if in.Type != "string" && nIdx < 3 && g.chance(40) {
 				in.Indexed = true
 				nIdx++
+			}
+			if withRef && in.Type == "address" {
+				// a lookup in another integration's table instead of arguments
+				withRef = false
+				in.Filter = &model.Filter{Op: g.pick([]string{"contains", "contains", "!contains"}), Ref: &model.Ref{Integration: "ref0", Column: "c_pool"}}
+				nflt++
+				refEv := &model.Event{Name: "Created0", Type: "event", Inputs: []model.Input{
+					{Name: "pool", Type: "address", Indexed: g.chance(50), Column: "c_pool"},
+					{Name: "x", Type: "uint256", Column: "c_x"},
+				}}
+				rd := &model.Decl{Name: "ref0", Enabled: true, Event: refEv, Sources: []model.SrcRef{{Name: sp.Name, Start: 1}}}
+				rd.Table.Name = "t_ref0"
+				rd.Table.Columns = []model.Col{{Name: "c_pool", Type: "bytea"}, {Name: "c_x", Type: "numeric"}}
+				p.Decls = append(p.Decls, rd)
+				p.Content.Events = append(p.Content.Events, EventSpec{Event: refEv})
+				p.Content.Seeded = append(p.Content.Seeded, SeededLogs{Event: refEv, AddrInput: 0, UpTo: 3})
+				p.Checks["deps"] = true
+				addCol(in.Column, ABIColType(in.Type))
+				ev.Inputs = append(ev.Inputs, in)
+				continue
 			}
 			if g.chance(55) {
 				switch {
